@@ -951,5 +951,160 @@ theorem densifyRow_prune {n : Nat} {es : Row} (fill : Int) (h : RowWF n es) :
   intro i _
   exact lookupRow_prune fill h.nodup i
 
+/-! ### argsort, gather, scatter -/
+
+theorem length_argsort (l : List Int) : (argsort l).length = l.length := by simp [argsort]
+
+theorem mem_argsort {l : List Int} {j : Nat} (h : j ∈ argsort l) : j < l.length := by
+  simpa [argsort] using h
+
+theorem map_getD_range {α : Type} (d : α) (l : List α) : (List.range l.length).map (l.getD · d) = l := by
+  apply List.ext_getElem
+  · simp
+  · intro i h1 h2
+    simp [List.getD_eq_getElem?_getD, List.getElem?_eq_getElem h2]
+
+/-- `values[np.argsort(values)]` is the sorted array -/
+theorem gather_argsort (l : List Int) : gather 0 (argsort l) l = l.mergeSort leAsc := by
+  unfold gather argsort
+  have := List.map_mergeSort (r := fun i j => decide (l.getD i 0 ≤ l.getD j 0)) (s := leAsc)
+    (f := fun i => l.getD i 0) (l := List.range l.length) (fun a _ b _ => rfl)
+  rw [this, map_getD_range]
+
+theorem gather_map {α β : Type} (d : α) (d' : β) (f : α → β) (p : List Nat) (l : List α)
+    (hp : ∀ j ∈ p, j < l.length) : gather d' p (l.map f) = (gather d p l).map f := by
+  unfold gather
+  rw [List.map_map]
+  apply List.map_congr_left
+  intro j hj
+  have := hp j hj
+  simp [List.getD_eq_getElem?_getD, this]
+
+theorem getD_append_length {α : Type} (d : α) (pre : List α) (v : α) (vs : List α) :
+    (pre ++ v :: vs).getD pre.length d = v := by
+  simp [List.getD_eq_getElem?_getD]
+
+theorem gather_range' {α : Type} (d : α) : ∀ (rest pre : List α),
+    gather d (List.range' pre.length rest.length) (pre ++ rest) = rest
+  | [], pre => by simp [gather]
+  | v :: vs, pre => by
+    have ih := gather_range' d vs (pre ++ [v])
+    simp only [List.length_append, List.length_cons, List.length_nil, List.append_assoc, List.cons_append,
+      List.nil_append, Nat.zero_add] at ih
+    simp only [gather, List.length_cons, List.range'_succ, List.map_cons] at ih ⊢
+    rw [ih, getD_append_length]
+
+theorem scatter_range' {α : Type} : ∀ (rest pre : List α),
+    scatterAux (List.range' pre.length rest.length) rest (pre ++ rest) = pre ++ rest
+  | [], pre => by simp [scatterAux]
+  | v :: vs, pre => by
+    have ih := scatter_range' vs (pre ++ [v])
+    simp only [List.length_append, List.length_cons, List.length_nil, List.append_assoc, List.cons_append,
+      List.nil_append, Nat.zero_add] at ih
+    simp only [List.length_cons, List.range'_succ, scatterAux]
+    have hset : (pre ++ v :: vs).set pre.length v = pre ++ v :: vs := by
+      rw [List.set_append_right _ _ (Nat.le_refl _)]
+      simp
+    rw [hset, ih]
+
+/-- an index list that sorts a duplicate-free list is its argsort -/
+theorem argsort_eq_of {l : List Int} (hnd : l.Nodup) {q : List Nat} (hlen : q.length = l.length)
+    (hq : ∀ j ∈ q, j < l.length) (hg : gather 0 q l = l.mergeSort leAsc) : argsort l = q := by
+  have hg' := gather_argsort l
+  apply List.ext_getElem
+  · rw [length_argsort, hlen]
+  · intro i h1 h2
+    have e1 : (gather 0 (argsort l) l)[i]'(by simp [gather]; exact h1) = (gather 0 q l)[i]'(by simp [gather]; exact h2) := by
+      simp only [hg', hg]
+    simp only [gather, List.getElem_map] at e1
+    have b1 : (argsort l)[i] < l.length := mem_argsort (List.getElem_mem h1)
+    have b2 : q[i] < l.length := hq _ (List.getElem_mem h2)
+    exact (List.getD_inj b1 b2 hnd).mp e1
+
+/-- **when the inverse permutation is harmless**: for `fill :: U` with `U` strictly increasing, not
+containing `fill`, and at most one element of `U` below `fill`, the argsort permutation is an
+involution, so writing through it equals reading through it. -/
+theorem scatter_eq_gather_of_le_one {β : Type} (d : β) (fill : Int) (U : List Int) (hU : U.Pairwise (· < ·))
+    (hnf : fill ∉ U) (hone : U.countP (fun v => decide (v < fill)) ≤ 1) (xs : List β)
+    (hxs : xs.length = U.length + 1) :
+    scatter (argsort (fill :: U)) xs = gather d (argsort (fill :: U)) xs := by
+  have hndU : U.Nodup := hU.imp fun {a b} h => by omega
+  have hnd : (fill :: U).Nodup := List.nodup_cons.mpr ⟨hnf, hndU⟩
+  -- case A: every element of U is above fill -> identity permutation
+  have caseA : (∀ u ∈ U, fill < u) → scatter (argsort (fill :: U)) xs = gather d (argsort (fill :: U)) xs := by
+    intro hall
+    have hsorted : (fill :: U).Pairwise (fun a b => leAsc a b) := by
+      rw [List.pairwise_cons]
+      refine ⟨fun u hu => by have := hall u hu; simp [leAsc]; omega, hU.imp fun {a b} h => by simp [leAsc]; omega⟩
+    have hp : argsort (fill :: U) = List.range' 0 (U.length + 1) := by
+      apply argsort_eq_of hnd (by simp) (by intro j hj; simp [List.mem_range'_1] at hj ⊢; omega)
+      have := gather_range' (0 : Int) (fill :: U) []
+      simp only [List.length_nil, List.nil_append, List.length_cons] at this
+      rw [this, List.mergeSort_of_pairwise hsorted]
+    rw [hp, ← hxs]
+    have h1 := scatter_range' xs []
+    have h2 := gather_range' d xs []
+    simp only [List.length_nil, List.nil_append] at h1 h2
+    unfold scatter
+    rw [h1, h2]
+  cases U with
+  | nil => exact caseA (by simp)
+  | cons u0 U' =>
+    rw [List.pairwise_cons] at hU
+    by_cases h0 : fill < u0
+    · apply caseA
+      intro u hu
+      rcases List.mem_cons.mp hu with rfl | hu
+      · exact h0
+      · have := hU.1 u hu; omega
+    · -- case B: exactly u0 below fill -> the transposition (0 1)
+      have hu0 : u0 < fill := by
+        have : fill ≠ u0 := fun hh => hnf (by rw [hh]; exact List.mem_cons_self)
+        omega
+      have hrest : ∀ u ∈ U', fill < u := by
+        intro u hu
+        have hc : U'.countP (fun v => decide (v < fill)) = 0 := by
+          simp only [List.countP_cons, hu0, decide_true, if_true] at hone
+          omega
+        have := (List.countP_eq_zero.mp hc) u hu
+        have hne : fill ≠ u := fun hh => hnf (by rw [hh]; exact List.mem_cons_of_mem _ hu)
+        simp only [decide_eq_true_eq] at this
+        omega
+      have hp : argsort (fill :: u0 :: U') = 1 :: 0 :: List.range' 2 U'.length := by
+        apply argsort_eq_of hnd (by simp)
+        · intro j hj
+          simp only [List.mem_cons, List.mem_range'_1] at hj
+          simp only [List.length_cons]
+          omega
+        · have hg := gather_range' (0 : Int) U' [fill, u0]
+          simp only [List.length_cons, List.length_nil, List.cons_append, List.nil_append] at hg
+          have : gather 0 (1 :: 0 :: List.range' 2 U'.length) (fill :: u0 :: U') = u0 :: fill :: U' := by
+            simp only [gather, List.map_cons] at hg ⊢
+            rw [hg]
+            simp
+          rw [this]
+          symm
+          apply mergeSort_unique false
+          · rw [List.pairwise_cons, List.pairwise_cons]
+            refine ⟨?_, ?_, hU.2.imp fun {a b} h => by simp [leOf, leAsc]; omega⟩
+            · intro x hx
+              rcases List.mem_cons.mp hx with rfl | hx
+              · simp [leOf, leAsc]; omega
+              · have := hU.1 x hx; simp [leOf, leAsc]; omega
+            · intro x hx
+              have := hrest x hx; simp [leOf, leAsc]; omega
+          · exact List.Perm.swap _ _ _
+      rw [hp]
+      match xs, hxs with
+      | x0 :: x1 :: xr, hxs =>
+        have hl : xr.length = U'.length := by simpa using hxs
+        have h1 := scatter_range' xr [x1, x0]
+        have h2 := gather_range' d xr [x0, x1]
+        simp only [List.length_cons, List.length_nil, List.cons_append, List.nil_append, Nat.zero_add] at h1 h2
+        rw [← hl]
+        simp only [scatter, scatterAux, List.set_cons_succ, List.set_cons_zero, gather, List.map_cons] at h2 ⊢
+        rw [h1, h2]
+        simp
+
 end Search
 end SparseV
